@@ -188,6 +188,17 @@ func init() {
 		}
 		return IfaceVal{typ: m.ld.ctxMarker, v: &readerWrap{inner: a[0], limit: a[1].(*Term)}}
 	})
+	// a command that starts serving: the handler is recorded for the harness and the call returns
+	regV("net/http.ListenAndServe", func(m *Machine, g *Goroutine, a []Value) Value {
+		m.servedHandler = a[1]
+		return m.newErrorValue("verif: the listener was closed")
+	})
+	regV(repoMod+".verifServedHandler", func(m *Machine, g *Goroutine, a []Value) Value {
+		if m.servedHandler == nil {
+			return IfaceVal{}
+		}
+		return m.servedHandler
+	})
 	regV("io.NopCloser", wrap)
 	regV("io/ioutil.NopCloser", wrap)
 
